@@ -62,7 +62,11 @@ impl Session {
                         if close {break Upgrade::None}
                     }
                     Ok(None) => break Upgrade::None,
-                    Err(res) => {res.send(&mut self.connection).await;},
+                    /*
+                        a refused request ends the session: where it ends in the stream is unknown
+                        ( the rest of a too large head, an unread payload ... would be taken for next requests )
+                    */
+                    Err(res) => {res.send(&mut self.connection).await; break Upgrade::None},
                 }
             }
         }).await {
